@@ -215,6 +215,7 @@ func runC08(c *Ctx) {
 	scheduleExits(c, "R-C08-4")
 	scheduledOnly(c, "R-C08-4")
 	inFlightAwaited(c, "R-C08-5")
+	requestChannelSends(c, "R-C08-6")
 	signalOrder(c, "R-C08-3")
 }
 
@@ -766,4 +767,63 @@ func inFlightAwaited(c *Ctx, rule string) {
 	c.R.Check(libOK || barrierOK, rule, fn+":in-flight-transmissions-awaited", fn, c.pos(sch.Pos()), fact,
 		"a transmission already running when the scheduler stops completes before schedule() returns (group Wait that waits, or a reader/writer barrier)",
 		"an RA in flight when the advertiser stops is sent after the final RA / after Run has returned")
+}
+
+// requestChannelSends (R-C08-6): a goroutine of the task that hands a request
+// to the scheduler with a bare send (no select on ctx.Done()) can only finish
+// when the scheduler is gone if the channel takes the value without a
+// receiver: the request channel must be buffered. (A full buffer at the
+// instant of the stop is the residual case listed under not covered.)
+func requestChannelSends(c *Ctx, rule string) {
+	adv := c.P.Method("internal/corerad", "Advertiser", "advertise")
+	if adv == nil {
+		return
+	}
+	// the functions advertise creates as values (goroutine bodies, the listener callback): closures
+	// and method values, each enumerated with helpers in line
+	var fns []*ssa.Function
+	seen := map[*ssa.Function]bool{}
+	var collect func(f *ssa.Function)
+	collect = func(f *ssa.Function) {
+		for _, b := range f.Blocks {
+			for _, in := range b.Instrs {
+				if mc, ok := in.(*ssa.MakeClosure); ok {
+					g := mc.Fn.(*ssa.Function)
+					if !seen[g] {
+						seen[g] = true
+						fns = append(fns, g)
+						collect(g)
+					}
+				}
+			}
+		}
+	}
+	collect(adv)
+	n := 0
+	done := map[ssa.Instruction]bool{}
+	for _, f := range fns {
+		for _, p := range c.pathsO(rule, f, an.PathOpts{EmitCut: true}) {
+			p.Instrs(func(in ssa.Instruction) {
+				snd, ok := in.(*ssa.Send)
+				if !ok || done[in] || !strings.HasSuffix(typeStr(snd.Chan.Type()), "netip.Addr") {
+					return
+				}
+				done[in] = true
+				n++
+				e := p.Of(snd.Chan)
+				buffered := false
+				for _, alt := range e.Alts() {
+					if alt.Op == an.OpMake && len(alt.Args) == 1 {
+						if k, isC := alt.Args[0].ConstInt(); isC && k > 0 {
+							buffered = true
+						}
+					}
+				}
+				c.R.Check(buffered, rule, c.fname(snd.Parent())+":bare-send-on-buffered-request-channel", c.fname(snd.Parent()), c.pos(snd.Pos()),
+					fmt.Sprintf("bare send on %s", e), "a request is handed to the scheduler without blocking on a receiver (buffered channel), or under a select with ctx.Done()",
+					"a solicitation arriving while the advertiser stops blocks the listener forever: Run never returns")
+			})
+		}
+	}
+	c.R.Check(n >= 1, rule, c.fname(adv)+":request-sends", c.fname(adv), c.pos(adv.Pos()), fmt.Sprintf("%d bare send(s) of a request", n), ">= 1 (listener callback)", "anchor-missing")
 }
